@@ -94,6 +94,22 @@ def run(spec, R):
         wit = {'lang': lang, 'sequence': seq, 'batch': dump[:3000]}
         R.case(stable_hash((seq, dump)), any(len(st.tree.leaves) >= 2 for t in batch for st in t))
         R.hist('renderings', 'sequences')
+        # reference outputs are taken up-front, then a larger unrelated batch is rendered in the same formats:
+        # state kept by a printer between calls must not leak into later renderings of these results
+        reference = {}
+        for name in set(seq):
+            try:
+                reference[name] = rend[name](copy.deepcopy(pristine))
+            except Exception:
+                reference[name] = None
+        other = treegen.make_batch(rng, lang, 'all', max_sentences=5, max_nbest=3, attr_domain='all')
+        while len(other) <= len(batch):
+            other = other + treegen.make_batch(rng, lang, 'all', max_sentences=2, max_nbest=2, attr_domain='all')
+        for name in set(seq):
+            try:
+                rend[name](other)
+            except Exception:
+                pass
         for k, name in enumerate(seq):
             before = fingerprint(batch)
             try:
@@ -119,6 +135,10 @@ def run(spec, R):
                 break
             R.count('output:compared-with-fresh-copy')
             R.hist('renderings', name)
+            if reference.get(name) is not None and got != reference[name]:
+                R.violation('print:output-changes', f'{name} gives a different output than the same rendering of the same results gave '
+                            f'before other results were rendered in this process', dict(wit, step=k, got=got[:600], want=reference[name][:600]))
+                break
             if got != want:
                 R.violation('print:output-changes', f'{name} after {seq[:k]} on the same objects differs from {name} on a fresh copy',
                             dict(wit, step=k, got=got[:600], want=want[:600]))
